@@ -72,6 +72,8 @@ fn main() {
             // interpreter steps recorded); cases marked for a child process stay in one, since a crash of the
             // code under test must not take the driver down
             let vm_form = args.iter().any(|a| a == "--vm");
+            // --cases-only: write the generated cases without running them (input for `vh replay`)
+            let cases_only = args.iter().any(|a| a == "--cases-only");
             let mut stride = 1usize;
             if vm_form {
                 let mut total = 0usize;
@@ -95,6 +97,11 @@ fn main() {
                             return;
                         }
                         c.forms = vec!["vm".to_string()];
+                    }
+                    if cases_only {
+                        writeln!(out, "{}", c.to_json()).unwrap();
+                        written += 1;
+                        return;
                     }
                     let o = run::run_case(&c, &mut run_rng);
                     writeln!(out, "{}", o).unwrap();
